@@ -32,7 +32,8 @@ ASSUMPTIONS = [
 UNMODELLED = [
     "HUGR validation of successful traces (no validator for /repo output)",
     "which wire ends up where (C21/C07); only the ownership verdict is modelled",
-    "deliberate circumvention through unbound base-class methods (`list.append(xs, 1)`, `list.__init__(xs, …)`) on a frozenlist",
+    "unbound base-class calls on a frozenlist (`[].__class__.append(xs, v)`, `super(type(xs), xs).__init__(…)`) cannot be intercepted by a list "
+    "subclass: probed on every run and carried as known findings (exact keys), not modelled",
     "nested containers deeper than one level in generated bodies",
 ]
 MANIFEST = {
@@ -54,7 +55,7 @@ MANIFEST = {
 GEN = os.path.join(vlib.LEAN, "GuppyVerif", "Gen", "C22FrozenList.lean")
 
 
-MUTATOR_ARGS = {"append": (9,), "extend": ([9],), "insert": (0, 9), "pop": (), "remove": (1,), "__setitem__": (0, 9),
+MUTATOR_ARGS = {"__init__": ([9],), "append": (9,), "extend": ([9],), "insert": (0, 9), "pop": (), "remove": (1,), "__setitem__": (0, 9),
                 "__delitem__": (0,), "__iadd__": ([9],), "__imul__": (2,), "clear": (), "reverse": (), "sort": ()}
 
 
@@ -367,10 +368,8 @@ def frozen_behaviour():
     from guppylang_internals.error import GuppyComptimeError
     from guppylang_internals.tracing.frozenlist import frozenlist
 
-    args = {"append": (9,), "extend": ([9],), "insert": (0, 9), "pop": (), "remove": (1,), "__setitem__": (0, 9),
-            "__delitem__": (0,), "__iadd__": ([9],), "__imul__": (2,), "clear": (), "reverse": (), "sort": ()}
     res = {}
-    for name, a in args.items():
+    for name, a in MUTATOR_ARGS.items():
         xs = frozenlist([3, 1, 2])
         try:
             getattr(xs, name)(*a)
@@ -385,7 +384,29 @@ def frozen_behaviour():
     return res
 
 
-SPEC_MUTATORS = sorted(["append", "clear", "extend", "insert", "pop", "remove", "reverse", "sort",
+# Mutations that go around the instance's methods (unbound base-class calls).  Python offers no way for a `list`
+# subclass to intercept `list.append(xs, v)`, so these are expected KNOWN FINDINGS (exact keys), not silently skipped.
+BYPASS = [
+    ("unbound list.append", "[].__class__.append(xs, xs[0])"),
+    ("unbound list.__init__", "[].__class__.__init__(xs, [xs[1], xs[0]])"),
+    ("bound __init__", "xs.__init__([xs[1], xs[0]])"),
+    ("bound __init__ via super", "super(type(xs), xs).__init__([xs[1], xs[0]])"),
+]
+
+
+def tie_bypass(ctx):
+    for name, stmt in BYPASS:
+        src = f"@guppy.comptime\ndef f(xs: array[int, 2] @owned) -> None:\n    {stmt}\n"
+        rv, detail = real_verdict(src)
+        ctx.count(["bypass", name, stmt], nontrivial=True, kind=f"bypass:{rv.split(':')[0]}")
+        if rv == "ok":
+            ctx.violation(f"bypass:{stmt}", f"in-place mutation of a value derived from an owned argument is accepted: `{stmt}` ({name})",
+                          {"src": src, "stmt": stmt, "real": rv, "detail": detail})
+        elif rv.startswith("crash"):
+            ctx.violation(f"bypass:{stmt}", f"the tracer crashes on `{stmt}`: {rv} {detail}", {"src": src, "stmt": stmt, "real": rv, "detail": detail})
+
+
+SPEC_MUTATORS = sorted(["__init__", "append", "clear", "extend", "insert", "pop", "remove", "reverse", "sort",
                         "__setitem__", "__delitem__", "__iadd__", "__imul__"])
 
 
@@ -663,7 +684,7 @@ def tie_nested_linear(ctx):
 
 def tie(ctx):
     # ---- frozenlist: oracle for the fixed list of Spec/C22.lean, and the real class's behaviour
-    muts = [m for m in list_mutators() if m != "__init__"]
+    muts = list_mutators()      # every attribute of `list` that can change the list, `__init__` (re-initialisation) included
     ctx.extra["cpython_list_mutators"] = muts
     if muts != SPEC_MUTATORS:
         ctx.broke(f"Spec/C22.lean mutatingListMethods {SPEC_MUTATORS} is not this CPython's set of mutating list methods {muts}")
@@ -703,6 +724,7 @@ def tie(ctx):
                 ctx.violation("trace:" + body, f"ownership verdict of the real tracer is `{rv}` ({detail}) but the property requires `{orc}` for\n{body}", rep)
             ctx.broke(f"correspondence Model/TraceOwn.lean vs tracer: model {mv}, real {rv} on ops `{ops}`")
     tie_nested(ctx)
+    tie_bypass(ctx)
     tie_nested_linear(ctx)
 
 
